@@ -301,8 +301,11 @@ func (c06) Run(e *simkit.Env, cc any) {
 		mu.Unlock()
 		e.Logf("c%d %s name=%d proc=%d -> ok=%v owner=%d unknown=%v skip=%v %s [%d,%d]", client, in.Op, in.Name, in.Proc, out.OK, out.Owner, out.Unknown, out.Skip, out.Err, call, ret)
 	}
-	pinged := map[int][]int{} // name index -> processes that received the audit ping sent to that name
-	var pendingTerm sync.Map  // proc index -> call step of the first terminate op
+	pinged := map[int][]int{}      // name index -> processes that received the audit ping sent to that name
+	var spentPIDs []gen.PID        // ids used by processes whose Init failed
+	var kids []gen.PID             // children spawned with LinkParent / LinkChild that terminate at once
+	kidsGone := map[gen.PID]bool{} // ... whose terminate callback has run
+	var pendingTerm sync.Map       // proc index -> call step of the first terminate op
 	newProc := func() *proc {
 		p := &proc{termDone: make(chan struct{})}
 		mu.Lock()
@@ -336,6 +339,38 @@ func (c06) Run(e *simkit.Env, cc any) {
 					if ma, err := pp.SpawnMeta(NewProbeMeta(mh), gen.MetaOptions{}); err == nil {
 						p.metas = append(p.metas, ma)
 						p.metaH = append(p.metaH, mh)
+					}
+					// a spawn that fails in Init: the id it used is spent, nobody else may get it
+					fh := &Hooks{Name: "failing", Env: e}
+					fh.Init = func(fp *Probe, args ...any) error {
+						mu.Lock()
+						spentPIDs = append(spentPIDs, fp.PID())
+						mu.Unlock()
+						return fmt.Errorf("init fails")
+					}
+					if _, err := pp.Spawn(ProbeFactory(fh), gen.ProcessOptions{}); err == nil {
+						e.Fail("C06/unexpected-failure", "Spawn of a process whose Init fails succeeded")
+					}
+					// a child that is linked to this process from its birth (the child is the requester)
+					// and goes away before it
+					kh := &Hooks{Name: "kid", Env: e, Trap: true}
+					kh.Message = func(kp *Probe, from gen.PID, m any) error {
+						if m == "die" {
+							return gen.TerminateReasonNormal
+						}
+						return nil
+					}
+					kh.Terminate = func(kp *Probe, reason error) {
+						mu.Lock()
+						kidsGone[kp.PID()] = true
+						mu.Unlock()
+					}
+					opts := gen.ProcessOptions{LinkParent: p.id%2 == 0, LinkChild: p.id%2 == 1}
+					if kid, err := pp.Spawn(ProbeFactory(kh), opts); err == nil {
+						mu.Lock()
+						kids = append(kids, kid)
+						mu.Unlock()
+						pp.Send(kid, "die")
 					}
 				}
 			case c06EvOp:
@@ -773,16 +808,57 @@ func (c06) Run(e *simkit.Env, cc any) {
 			}
 			seen[r] = i
 		}
-		pids := map[gen.PID]bool{}
-		for _, p := range ps {
-			if p.failed {
-				continue
+	}
+	// process ids: those of the workload's processes, of the short-lived children and those spent by
+	// spawns that failed in Init are all different
+	{
+		pids := map[gen.PID]string{}
+		add := func(pid gen.PID, what string) bool {
+			if prev, dup := pids[pid]; dup {
+				e.Fail("C06/identifier-repeated", "the process id %d was given out twice: to %s and to %s", pid.ID, prev, what)
+				return false
 			}
-			if pids[p.pid] {
-				e.Fail("C06/identifier-repeated", "two processes were given the same pid %v", p.pid)
+			pids[pid] = what
+			return true
+		}
+		for _, p := range ps {
+			if !p.failed && !add(p.pid, fmt.Sprintf("process %d", p.id)) {
 				return
 			}
-			pids[p.pid] = true
+		}
+		mu.Lock()
+		ks := append([]gen.PID(nil), kids...)
+		sp := append([]gen.PID(nil), spentPIDs...)
+		gone := map[gen.PID]bool{}
+		for k, v := range kidsGone {
+			gone[k] = v
+		}
+		mu.Unlock()
+		for _, k := range ks {
+			if !add(k, "a child spawned with LinkParent/LinkChild") {
+				return
+			}
+		}
+		for _, k := range sp {
+			if !add(k, "a process whose Init failed") {
+				return
+			}
+		}
+		// a terminated child appears in no relation, neither as requester (LinkParent) nor as target (LinkChild)
+		for _, k := range ks {
+			if !gone[k] {
+				continue
+			}
+			links, mons := tm.GetTargetsForConsumer(k)
+			if len(links)+len(mons) != 0 {
+				e.Fail("C06/relation-leak-requester", "a child spawned with LinkParent has terminated and still appears as requester of %d link(s)", len(links))
+				return
+			}
+			if cons := tm.GetConsumersForTarget(k); len(cons) != 0 {
+				e.Fail("C06/relation-leak-target", "a child spawned with LinkChild has terminated and is still the target of %d relation(s)", len(cons))
+				return
+			}
+			e.Probe("spawn-time-link-audited")
 		}
 	}
 }
